@@ -59,6 +59,13 @@ RULE += (' ' +
          'attempts (every join names one hash); two overlapping join() calls '
          'on shared and separate tokens. Round 11: secret and key as '
          'bytearray / memoryview / array / slice of a view. ')
+RULE += (' ' +
+         'Added in later rounds: four DER encodings of the key; the full '
+         'login path (delegated to C10) with non-ASCII and dash-prefixed '
+         'server ids and with a session service that refuses the first join '
+         'attempts (every join names one hash); two overlapping join() calls '
+         'on shared and separate tokens. Round 11: secret and key as '
+         'bytearray / memoryview / array / slice of a view. ')
 LEVEL_TEXT = ('Differential testing against an independent Java-BigInteger '
               'hex reference with directed search for every digest edge '
               'class plus crafted digests and seeded random inputs.')
